@@ -111,7 +111,7 @@ def Cfg.original : Cfg := ⟨false, false, false⟩
 
 /-- THE SWITCH: the variant /repo currently contains (used by the driver, i.e. by the
 correspondence check). Set a field to `true` when the corresponding proposed fix is applied. -/
-def Cfg.asFound : Cfg := ⟨false, false, false⟩
+def Cfg.asFound : Cfg := ⟨true, true, true⟩
 
 /-- all proposed fixes applied -/
 def Cfg.fixed : Cfg := ⟨true, true, true⟩
